@@ -43,6 +43,9 @@ def run(prog, chk):
     chk.rule(geomalg.check, prog, chk, "C13", floor=30)
     from props import C04 as _C04
     chk.rule(_C04.consumed, prog, chk)  # start / end are consumed by the connector code only: a rewrite that removes them first turns a connector into a plain line
+    from props import C10 as _C10, C09 as _C09
+    chk.rule(_C10.registration_keys_agree, prog, chk)  # `start="#b"` resolves against the element registered under that id: a stale provisional registration answers with a half-defined box
+    chk.rule(_C09.prev_point, prog, chk)  # `start="^"` after a <point>: the point is the previous element
 
 
 def _lit(body, t, i):
